@@ -128,6 +128,7 @@ func execC16B(t *testing.T, plan *h.Plan, trace bool) *h.Result {
 		cur := map[string]*croltReg{}
 		ambush := map[string]bool{}        // armed: remove the job while its next delivery is in progress
 		ambushDone := make(chan error, 64) // results of those removals
+		ambushOut := 0                     // removals started and not yet collected (guarded by mu)
 		var liveCron *crolt.Cron
 		http.DefaultClient = &http.Client{Transport: rtFunc(func(r *http.Request) (*http.Response, error) {
 			key := strings.TrimPrefix(r.URL.Path, "/")
@@ -137,8 +138,18 @@ func execC16B(t *testing.T, plan *h.Plan, trace bool) *h.Result {
 				if ambush[key] && g.removed.IsZero() && liveCron != nil {
 					delete(ambush, key)
 					g.removed = time.Now().Add(time.Nanosecond)
-					cc, acct, id := liveCron, g.acct, g.id
-					go func() { ambushDone <- cc.Delete(acct, id) }()
+					cc, acct, id, gg := liveCron, g.acct, g.id, g
+					ambushOut++
+					go func() {
+						err := cc.Delete(acct, id)
+						if err != nil {
+							// the service was being shut down under it: nothing was removed
+							mu.Lock()
+							gg.removed = time.Time{}
+							mu.Unlock()
+						}
+						ambushDone <- err
+					}()
 					mu.Unlock()
 					// let the removal get as far as it can while this delivery
 					// (and the work loop's transaction around it) is still open
@@ -167,6 +178,9 @@ func execC16B(t *testing.T, plan *h.Plan, trace bool) *h.Result {
 				panic(fmt.Sprintf("harness: NewCron: %v", err))
 			}
 			c.PollingInterval = poll
+			mu.Lock()
+			liveCron = c // before the work loops start: their first delivery may already be ambushed
+			mu.Unlock()
 			c.WorkLoops()
 			return db, c
 		}
@@ -220,9 +234,25 @@ func execC16B(t *testing.T, plan *h.Plan, trace bool) *h.Result {
 				break
 			}
 			key := op.Loc + "/" + op.Id
+			// a removal started during a delivery is over before the next operation begins
+			drain := func() {
+				for {
+					mu.Lock()
+					n := ambushOut
+					mu.Unlock()
+					if n == 0 {
+						return
+					}
+					<-ambushDone
+					mu.Lock()
+					ambushOut--
+					mu.Unlock()
+				}
+			}
 			switch op.K {
 			case "sleep":
 				time.Sleep(time.Duration(op.N))
+				drain()
 				continue
 			case "add":
 				now := time.Now()
